@@ -77,7 +77,8 @@ Proof. vm_compute. repeat split; reflexivity. Qed.
 (* ===== L2: the concrete column store of lib.c (Store.Matrix: matbeg / matcnt / matind / matval / matsize / matfree,
    relocation of columns, holes, growth by reallocation; Store.L2: which matrix_* / ILLlib_* functions a public call runs).
    Tie to the code: harness/h_store.c DUMPM prints the raw arrays of p->qslp->A with structmap, rowmap, nzcount after
-   every op; ocaml/drv_store.ml replays the same ops on the extracted model (l2_step_c = l2_step 100 1000); checks/C06.py
+   every op; ocaml/drv_store.ml replays the same ops on the extracted model (l2_step_c fixed = l2_step 100 1000 fixed; `fixed` selects matrix_addrow as found / as repaired by
+   notes/repo_patches/matrix_addrow_repeated_column.diff - the check probes the library and runs the model variant it finds); checks/C06.py
    demands equality of all arrays after every op of every history.
    Result type of the model: Ok m | Rej (the C function returns 1 before writing) | Fault (the C code would index outside
    its arrays or reach exit(1)).  First the Ok results (WF preserved, abs commutes), then fault freedom under WF. ===== *)
@@ -91,8 +92,8 @@ Print Assumptions C06_L2_WF_empty.
 
 (* matrix_addrow (in place / relocate / matrix_addrow_end) preserves WF and appends, to every column, the entries the new row
    has for it, in the order given (Spec.app_row on entry lists) - for all states, all entry lists incl. repeated columns *)
-Theorem C06_L2_addrow : forall extra_mat m ents m',
-  WF m -> mat_addrow extra_mat m ents = Ok m' -> WF m' /\ abs m' = app_row_ent (abs m) 0 (mrows m) ents.
+Theorem C06_L2_addrow : forall extra_mat fixed m ents m',
+  WF m -> mat_addrow extra_mat fixed m ents = Ok m' -> WF m' /\ abs m' = app_row_ent (abs m) 0 (mrows m) ents.
 Proof. exact abs_addrow. Qed.
 Print Assumptions C06_L2_addrow.
 
@@ -136,13 +137,13 @@ Print Assumptions C06_L2_del_rows_ent_is_spec.
 (* the whole store (matrix + structmap + rowmap) refines the reference model: after any accepted call, and so after any
    history, the entry lists of the structural columns read through structmap are those of the reference model, and the
    invariants (WF of the matrix, structmap / rowmap injective, disjoint, in range, one logical per row) hold *)
-Theorem C06_L2_step_refines : forall M extra_cols extra_mat s p o p' t s',
-  refines s p -> pstep M p o = (p', ROk t) -> l2_step extra_cols extra_mat p s o = Ok s' -> refines s' p'.
+Theorem C06_L2_step_refines : forall M extra_cols extra_mat fixed s p o p' t s',
+  refines s p -> pstep M p o = (p', ROk t) -> l2_step extra_cols extra_mat fixed p s o = Ok s' -> refines s' p'.
 Proof. exact l2_step_refines. Qed.
 Print Assumptions C06_L2_step_refines.
 
-Theorem C06_L2_history_refines : forall M extra_cols extra_mat l s p s',
-  refines s p -> l2_run M extra_cols extra_mat p s l = Ok s' -> refines s' (prun M p l).
+Theorem C06_L2_history_refines : forall M extra_cols extra_mat fixed l s p s',
+  refines s p -> l2_run M extra_cols extra_mat fixed p s l = Ok s' -> refines s' (prun M p l).
 Proof. exact l2_run_refines. Qed.
 Print Assumptions C06_L2_history_refines.
 
@@ -173,20 +174,36 @@ Theorem C06_L2_addcoef_safe : forall extra_mat m i j v, WF m -> i < mrows m -> j
 Proof. exact mat_addcoef_safe. Qed.
 Print Assumptions C06_L2_addcoef_safe.
 
-(* matrix_addrow with distinct column indices: the estimate delta < matfree suffices for the whole in-place loop (invariant:
-   space still needed by blocked columns + 1 if a column ends at the used part <= matfree) *)
+(* matrix_addrow.  As repaired (fixed = true: the slot behind a column is read only if it exists, a column moves only if it
+   fits into the free tail, otherwise the remaining entries go through matrix_addrow_end): safe under WF for EVERY row, repeated
+   column indices included.  As found (fixed = false): with distinct column indices the estimate delta < matfree suffices for the
+   whole in-place loop (invariant: space still needed by blocked columns + 1 if a column ends at the used part <= matfree) *)
 Theorem C06_L2_addrow_safe : forall extra_mat m ents,
-  WF m -> Forall (fun e => fst e < mcols m) ents -> NoDup (map fst ents) -> exists m', mat_addrow extra_mat m ents = Ok m'.
-Proof. exact mat_addrow_safe. Qed.
+  WF m -> Forall (fun e => fst e < mcols m) ents -> exists m', mat_addrow extra_mat true m ents = Ok m'.
+Proof. exact mat_addrow_fixed_safe. Qed.
 Print Assumptions C06_L2_addrow_safe.
 
-(* with a repeated column index the loop can leave the array (exit(1) in the library: finding F-C06-matrix-addrow-exit):
-   witness on a 5-slot array satisfying the invariant; the same row with distinct columns is fine *)
+Theorem C06_L2_addrow_safe_as_found : forall extra_mat fixed m ents,
+  WF m -> Forall (fun e => fst e < mcols m) ents -> fixed = true \/ NoDup (map fst ents) -> exists m', mat_addrow extra_mat fixed m ents = Ok m'.
+Proof. exact mat_addrow_safe. Qed.
+Print Assumptions C06_L2_addrow_safe_as_found.
+
+(* the repair is conservative: wherever the loop as found succeeds the repaired loop computes the same arrays (no hypothesis
+   on the state) - it differs only where the library used to leave its array or call exit(1) *)
+Theorem C06_L2_addrow_repair_conservative : forall extra_mat m ents m',
+  mat_addrow extra_mat false m ents = Ok m' -> mat_addrow extra_mat true m ents = Ok m'.
+Proof. exact mat_addrow_conservative. Qed.
+Print Assumptions C06_L2_addrow_repair_conservative.
+
+(* as found, with a repeated column index the loop can leave the array (exit(1) in the library: finding
+   F-C06-matrix-addrow-exit): witness on a 5-slot array satisfying the invariant; the same row with distinct columns is fine;
+   the repaired loop rebuilds the array for the second entry (5 + 1 + EXTRA_MAT slots) and keeps the invariant *)
 Theorem C06_L2_addrow_repeated_column_refuted :
   let m := {| slots := [(0%Z, 1%Q); (1%Z, 1%Q); dslot; (0%Z, 1%Q); dslot];
               beg := [0; 3]; cnt := [2; 1]; mfree := 1; mrows := 2; colsize := 100 |} in
-  wf_check m = true /\ mat_addrow 1000 m [(0, 1%Q); (0, 1%Q)] = Fault /\
-  exists m', mat_addrow 1000 m [(0, 1%Q); (1, 1%Q)] = Ok m'.
+  wf_check m = true /\ mat_addrow 1000 false m [(0, 1%Q); (0, 1%Q)] = Fault /\
+  (exists m', mat_addrow 1000 false m [(0, 1%Q); (1, 1%Q)] = Ok m') /\
+  (exists m', mat_addrow 1000 true m [(0, 1%Q); (0, 1%Q)] = Ok m' /\ wf_check m' = true /\ msize m' = 1006).
 Proof. exact mat_addrow_repeated_column_faults. Qed.
 Print Assumptions C06_L2_addrow_repeated_column_refuted.
 
@@ -199,20 +216,31 @@ Proof. exact mat_delrows_safe. Qed.
 Print Assumptions C06_L2_delrows_safe.
 
 (* the whole interface: every call the reference model accepts runs on the concrete store without fault or rejection and
-   keeps the refinement (good = refines + every logical column is the singleton of its row), for every history in which
-   no added row lists a column twice; QSload_prob likewise *)
-Theorem C06_L2_step_safe : forall M extra_cols extra_mat, 0 < extra_cols -> forall s p o p' t,
-  good s p -> pstep M p o = (p', ROk t) -> rows_nodup o -> exists s', l2_step extra_cols extra_mat p s o = Ok s' /\ good s' p'.
-Proof. exact l2_step_safe. Qed.
+   keeps the refinement (good = refines + every logical column is the singleton of its row) - with the repaired matrix_addrow
+   for EVERY history; QSload_prob likewise *)
+Theorem C06_L2_step_safe : forall M extra_cols extra_mat s p o p' t, 0 < extra_cols ->
+  good s p -> pstep M p o = (p', ROk t) -> exists s', l2_step extra_cols extra_mat true p s o = Ok s' /\ good s' p'.
+Proof. exact l2_step_fixed_safe. Qed.
 Print Assumptions C06_L2_step_safe.
 
-Theorem C06_L2_history_safe : forall M extra_cols extra_mat l, 0 < extra_cols -> forall s p, good s p -> Forall rows_nodup l ->
-  exists s', l2_run M extra_cols extra_mat p s l = Ok s' /\ good s' (prun M p l).
-Proof. exact l2_run_safe. Qed.
+Theorem C06_L2_history_safe : forall M extra_cols extra_mat l, 0 < extra_cols -> forall s p, good s p ->
+  exists s', l2_run M extra_cols extra_mat true p s l = Ok s' /\ good s' (prun M p l).
+Proof. exact l2_run_fixed_safe. Qed.
 Print Assumptions C06_L2_history_safe.
 
-Theorem C06_L2_load_good : forall M extra_cols extra_mat mx cols rows p, 0 < extra_cols ->
-  load_prob M mx cols rows = Some p -> exists s, l2_load extra_cols extra_mat cols rows = Ok s /\ good s p.
+(* matrix_addrow as found: the same for every history in which no added row lists a column twice *)
+Theorem C06_L2_step_safe_as_found : forall M extra_cols extra_mat fixed, 0 < extra_cols -> forall s p o p' t,
+  good s p -> pstep M p o = (p', ROk t) -> fixed = true \/ rows_nodup o -> exists s', l2_step extra_cols extra_mat fixed p s o = Ok s' /\ good s' p'.
+Proof. exact l2_step_safe. Qed.
+Print Assumptions C06_L2_step_safe_as_found.
+
+Theorem C06_L2_history_safe_as_found : forall M extra_cols extra_mat fixed l, 0 < extra_cols -> forall s p, good s p -> fixed = true \/ Forall rows_nodup l ->
+  exists s', l2_run M extra_cols extra_mat fixed p s l = Ok s' /\ good s' (prun M p l).
+Proof. exact l2_run_safe. Qed.
+Print Assumptions C06_L2_history_safe_as_found.
+
+Theorem C06_L2_load_good : forall M extra_cols extra_mat fixed mx cols rows p, 0 < extra_cols ->
+  load_prob M mx cols rows = Some p -> exists s, l2_load extra_cols extra_mat fixed cols rows = Ok s /\ good s p.
 Proof. exact l2_load_good. Qed.
 Print Assumptions C06_L2_load_good.
 Close Scope nat_scope.
@@ -222,8 +250,80 @@ Close Scope nat_scope.
 Example C06_L2_example :
   let ops := [NewCol 1 0 5 None; NewCol 1 0 5 None; AddRow 4 "L" None None [(0%Z, 2); (1%Z, 3)]; AddRow 1 "G" None None [(0%Z, 5)]; ChgCoef 0 1 7] in
   let p := prun 1000 (empty_prob 1000 false) ops in
-  match l2_run 1000 100 1000 (empty_prob 1000 false) empty_lstore ops with
+  match l2_run 1000 100 1000 true (empty_prob 1000 false) empty_lstore ops with
   | Ok s => ents_of s = map sc_ent (p_cols p) /\ lwf_check s = true /\ begj (lA s) 0 <> 0%nat
   | _ => False
   end.
 Proof. vm_compute. repeat split; try reflexivity. discriminate. Qed.
+
+(* ===== the matrix built by the readers (QSread_prob -> rawlp.c buildMatrix + presolve.c ILLlp_add_logicals; Store.RawLoad) =====
+   Input: per surviving column its raw list in list order (row numbers after rowindex[.]), per row the coefficient of its
+   logical.  Tie: checks/C06.py writes LP and MPS files (duplicate coefficients of one (row, column) pair, columns that occur
+   in the objective only, 'N' rows, every sense), reads them with mpq_QSread_prob and compares the raw arrays of the library
+   with lib_load_raw_c of the extracted model (exact), and the query view with the reference problem with merged columns. *)
+From QSX Require Import Store.RawLoad Store.NzInv.
+Open Scope nat_scope.
+
+(* buildMatrix counts (pass 1) as many distinct rows as it later writes (pass 2): its internal error "problem with matrix" is unreachable *)
+Theorem C06_raw_count_rows_merge : forall c, length (merge_col c) = count_rows [] c.
+Proof. exact count_rows_merge. Qed.
+Print Assumptions C06_raw_count_rows_merge.
+
+(* duplicate coefficients: one stored entry per (row, column) pair - the later coefficients are added to the first ("Multiple
+   coefficients" is a warning); a column without duplicates is stored as it is *)
+Theorem C06_raw_merge_nodup : forall c, NoDup (map fst (merge_col c)).
+Proof. exact merge_col_nodup. Qed.
+Print Assumptions C06_raw_merge_nodup.
+
+Theorem C06_raw_merge_id : forall c, NoDup (map fst c) -> merge_col c = c.
+Proof. exact merge_col_id. Qed.
+Print Assumptions C06_raw_merge_id.
+
+(* the arrays: the compact layout of the merged columns (an empty column owns one slot), then one slot per logical, then one
+   free slot: matsize = entries + empty columns + 1 + nrows, matfree = 1, structmap = identity, rowmap[i] = nstruct + i *)
+Theorem C06_raw_load_arrays : forall rcols coefs, rcols <> [] -> coefs <> [] -> rows_in (length coefs) rcols ->
+  lib_load_raw rcols coefs = Ok {| lA := loaded_mat rcols coefs; smap := seq 0 (length rcols); rmap := seq (length rcols) (length coefs);
+                                   nzc := lsum (map (@length _) (raw_cols rcols)) + length coefs |}.
+Proof. exact lib_load_raw_spec. Qed.
+Print Assumptions C06_raw_load_arrays.
+
+(* it establishes the invariants (LWF: WF of the matrix + maps; LOG: logical columns are singletons), its abstraction is the
+   list of merged columns, and nzcount counts the stored entries *)
+Theorem C06_raw_load_ok : forall rcols coefs s, rows_in (length coefs) rcols -> lib_load_raw rcols coefs = Ok s ->
+  LWF s /\ LOG s /\ ents_of s = map merge_col rcols /\ length (smap s) = length rcols /\ length (rmap s) = length coefs /\
+  nzc s = lsum (cnt (lA s)).
+Proof. exact lib_load_raw_ok. Qed.
+Print Assumptions C06_raw_load_ok.
+
+(* the store built by the reader is a good representation of the reference problem QSload_prob builds from the merged columns
+   and the same rows: from here on C06_L2_history_safe / _history_refines apply to it *)
+Theorem C06_raw_load_is_reference_problem : forall M mx cols rows p rcols,
+  load_prob M mx cols rows = Some p -> map (fun c : colspec => nat_ents (snd c)) cols = map merge_col rcols ->
+  cols <> [] -> rows <> [] -> rows_in (length rows) rcols ->
+  exists s, lib_load_raw rcols (map (fun r : load_rowspec => coef_of_sense (snd (fst r))) rows) = Ok s /\ good s p /\ nzc s = lsum (cnt (lA s)).
+Proof. exact raw_load_refines_load_prob. Qed.
+Print Assumptions C06_raw_load_is_reference_problem.
+
+Example C06_raw_load_example :
+  (* x0: rows 1, 0 and row 1 again (2 + 5 merged into the first slot of row 1); x1: objective only (empty); x2: row 0 *)
+  match lib_load_raw [[(1, 2%Q); (0, 3%Q); (1, 5%Q)]; []; [(0, 1%Q)]] [1%Q; (-1)%Q] with
+  | Ok s => lwf_check s = true /\ ents_of s = [[(1, 7%Q); (0, 3%Q)]; []; [(0, 1%Q)]] /\ beg (lA s) = [0; 2; 3; 4; 5] /\ msize (lA s) = 7 /\ nzc s = 5
+  | _ => False
+  end.
+Proof. vm_compute. repeat split; reflexivity. Qed.
+
+(* ===== nzcount = number of stored entries (sum of matcnt), for every operation and every history ===== *)
+Theorem C06_L2_nzcount_step : forall extra_cols extra_mat fixed p s o s',
+  LWF s -> NZ s -> l2_step extra_cols extra_mat fixed p s o = Ok s' -> NZ s'.
+Proof. exact l2_step_nz. Qed.
+Print Assumptions C06_L2_nzcount_step.
+
+Theorem C06_L2_nzcount_history : forall M extra_cols extra_mat fixed l s p s',
+  refines s p -> NZ s -> l2_run M extra_cols extra_mat fixed p s l = Ok s' -> NZ s'.
+Proof. exact l2_run_nz. Qed.
+Print Assumptions C06_L2_nzcount_history.
+
+Theorem C06_L2_nzcount_load : forall extra_cols extra_mat fixed cols rows s, l2_load extra_cols extra_mat fixed cols rows = Ok s -> NZ s.
+Proof. exact l2_load_nz. Qed.
+Print Assumptions C06_L2_nzcount_load.
+Close Scope nat_scope.
